@@ -60,7 +60,7 @@ func exec(op string, args []string) []string {
 const sec = int64(1000000000)
 
 func gen(rng *rand.Rand, tier core.Tier, emit core.Emit) {
-	n := 200
+	n := 600
 	if tier == core.Thorough {
 		n = 6000
 	}
